@@ -2,7 +2,7 @@
    the visible operations logged by the harness.  One event = one visible operation of one thread
    (an X-section without inner visible operations is a single event).  Threads carry programs
    (lists of pending visible operations); callbacks run inline by prepending their programs.
-   Environment: the delegate executor, completion of its futures, the retry policy's answers,
+   Environment: the delegate executor, completion or cancellation (EEnvCancel) of its futures, the retry policy's answers,
    the clock.  Definitions only. *)
 From Coq Require Import ZArith List Bool Arith.
 From RecordUpdate Require Import RecordSet.
@@ -66,7 +66,9 @@ Inductive hev :=
 | HCb (j c : nat) (ts : Z)
 | HCancelled (j : nat) (ts : Z)               (* the retry future itself became cancelled *)
 | HCancelCall (j : nat) (ts : Z)
-| HCancelRet (j : nat) (b : bool) (ts : Z).
+| HCancelRet (j : nat) (b : bool) (ts : Z)
+| HEnvCancel (d : nat) (ts : Z).              (* ghost: SOMEONE ELSE (not RetryFuture.cancel) cancelled delegate future d:
+                                                 the Pending -> Cancelled transition was made by EEnvCancel *)
 
 Record st := mkSt {
   jobs : list nat;                 (* executor._jobs, as record ids *)
@@ -156,7 +158,11 @@ Inductive ev :=
 | EEnvRun (t d : nat) (pre : fstate)
 | EEnvStart (t d : nat)
 | EEnvFinish (t d : nat) (pre : fstate) (o : outcome)
-| EDied (t : nat).
+| EDied (t : nat)
+| EEnvCancel (t d : nat) (pre : fstate).  (* someone else (the environment: a user holding the delegate executor's future,
+                                             an outer layer, delegate.shutdown(cancel_futures=True)) calls cancel() on delegate
+                                             future d; on the Pending -> Cancelled transition the stdlib runs the done-callbacks
+                                             inline in t: _delegate_callback, which returns silently for a cancelled future *)
 
 Definition head_is (s : st) (t : nat) : option (instr * list instr) :=
   match thr s t with i :: r => Some (i, r) | [] => None end.
@@ -213,7 +219,8 @@ Definition step0 (s : st) (e : ev) : option st :=
           | None => Some (set_prog s t (IRelM j :: IRetB false :: rest))   (* job already dequeued: too late *)
           | Some r =>
               match jdel (recs s r) with
-              | None => Some (set_prog (s <| jobs := remove_id r (jobs s) |>) t
+              | None => (* future._clear_delegate() (M_j is held re-entrantly: silent), then _pop_job *)
+                        Some (set_prog (s <| rdel := upd (rdel s) j None |> <| jobs := remove_id r (jobs s) |>) t
                                        (IFCancel j :: IFSrnc j :: IRelMCbs j :: IRetB true :: rest))
               | Some d => Some (set_prog (s <| recs := upd (recs s) r (recs s r <| jstop := true |>) |>) t
                                          (IDCancel j d r :: rest))
@@ -448,6 +455,17 @@ Definition step0 (s : st) (e : ev) : option st :=
       end
   | EDied t =>
       match thr s t with IDead :: _ => Some s | _ => None end
+  | EEnvCancel t d pre =>
+      match thr s t with
+      | [] => if Nat.eqb t worker || negb (d <? ndel s) || negb (fstate_eqb pre (ds s d)) then None else
+              if f_cancel_fires pre then
+                (* Pending -> Cancelled; cancel() returns True after running the done-callbacks inline: the same callback
+                   program as after EEnvFinish / IDCancel (IDCbDone d, then IDCbCancelled d r, which returns silently) *)
+                Some (log (set_prog (s <| ds := upd (ds s) d (fst (f_cancel pre)) |>) t
+                                    (if dcb s d then [IDCbDone d; ICatch] else [])) (HEnvCancel d ts))
+              else Some s     (* Running: cancel() returns False; already done: f_cancel leaves the state as it is *)
+      | _ => None
+      end
   end.
 
 (* every event carries the virtual time at which it took effect *)
@@ -485,6 +503,7 @@ Definition decode (l : list Z) : option (Z * ev) :=
       | 20, [t; d] => Some (ts, EEnvStart (n t) (n d))
       | 21, [t; d; p; k; v] => match fstate_of p with Some p => Some (ts, EEnvFinish (n t) (n d) p (oc k v)) | None => None end
       | 22, [t] => Some (ts, EDied (n t))
+      | 23, [t; d; p] => match fstate_of p with Some p => Some (ts, EEnvCancel (n t) (n d) p) | None => None end
       | _, _ => None
       end
   | _ => None
